@@ -11,7 +11,7 @@ import filesupport as fsup
 from props import c04, c10, c12, c13
 
 PROP = "C18"
-LEAN_MODULES = ["Props.C18", "Props.Legacy"]
+LEAN_MODULES = ["Props.C18", "Props.Legacy", "Props.C18B"]
 RULE = (
     "case = (file family register|block|section, storage text|binary, declared component list, content: garbage, "
     "empty lines, content matching nothing, truncated binary records, well-formed content; one text content in fifty holds a line of 8191-17000 characters). File.read(content) on the "
